@@ -149,6 +149,34 @@ fn apply_all<M: Make>(ctx: &mut Ctx, case: &str, name: &str, b: &Board, snap: &F
     }
 }
 
+/// The UCI list entry points of the chain (`from_uci_list`, `push_uci_list`) with a one-token list.
+fn cand_list(ctx: &mut Ctx, case: &str, b: &Board, snap: &Full, mp: &MPos, legal: &[MMove], text: &str, expect: &Expect) {
+    let ccase = format!("{}|UciList:{}", case, text);
+    ctx.eval(2);
+    let r = crate::ctx::catch(|| {
+        let a = MoveChain::from_uci_list(b.clone(), text);
+        let mut ch = MoveChain::new(b.clone());
+        let r2 = ch.push_uci_list(text);
+        (a, r2.is_ok(), ch)
+    });
+    match r {
+        Err(msg) => ctx.violation(&format!("panic:uci_list:{}", crate::ctx::panic_site(&msg)), &ccase, &msg),
+        Ok((a, ok2, ch)) => {
+            judge(ctx, &ccase, "from_uci_list", mp, legal, expect, a.as_ref().ok().map(|c| c.last()));
+            judge(ctx, &ccase, "push_uci_list", mp, legal, expect, if ok2 { Some(ch.last()) } else { None });
+            if a.is_ok() != ok2 {
+                ctx.violation("entry_points_disagree", &ccase, &format!("from_uci_list ok={} push_uci_list ok={}", a.is_ok(), ok2));
+            }
+            if !ok2 && (ch.len() != 0 || full(ch.last()) != *snap) {
+                ctx.violation("refused_push_changed_chain", &ccase, &full_diff(&full(ch.last()), snap));
+            }
+            if ok2 && ch.len() != 1 {
+                ctx.violation("chain_len_after_accepted_push", &ccase, &format!("{}", ch.len()));
+            }
+        }
+    }
+}
+
 fn cand_move(ctx: &mut Ctx, case: &str, b: &Board, snap: &Full, mp: &MPos, legal: &[MMove], lm: Move, expect: &Expect, tag: &str) {
     let d = format!("{}:{}", tag, crate::conv::move_desc(&lm));
     apply_all(ctx, case, &format!("Move:{}", d), b, snap, mp, legal, expect, &|| lm);
@@ -161,6 +189,7 @@ fn cand_move(ctx: &mut Ctx, case: &str, b: &Board, snap: &Full, mp: &MPos, legal
     apply_all(ctx, case, &format!("uci::Move:{}", d), b, snap, mp, legal, &e_uci, &|| um);
     let text = lm.to_string();
     apply_all(ctx, case, &format!("Uci:{}", text), b, snap, mp, legal, &e_uci, &|| make::Uci(text.clone()));
+    cand_list(ctx, case, b, snap, mp, legal, &text, &e_uci);
 }
 
 pub fn check_pos(ctx: &mut Ctx, mp: &MPos, b: &Board) {
@@ -175,7 +204,8 @@ pub fn check_pos(ctx: &mut Ctx, mp: &MPos, b: &Board) {
     let legal: Vec<MMove> = pseudo.iter().copied().filter(|m| mp.is_legal_pseudo(m)).collect();
 
     // legal moves through every value kind
-    for m in &legal {
+    let light = ctx.light();
+    for m in legal.iter().take(if light { 3 } else { usize::MAX }) {
         let Some(lm) = to_move(m) else { continue };
         let e = Expect::Exact(Some(*m));
         cand_move(ctx, &case, b, &snap, mp, &legal, lm, &e, "legal");
@@ -190,7 +220,7 @@ pub fn check_pos(ctx: &mut Ctx, mp: &MPos, b: &Board) {
     }
     // pseudo-legal but illegal
     let mut illegal_n = 0;
-    for m in pseudo.iter().filter(|m| !legal.contains(m)) {
+    for m in pseudo.iter().filter(|m| !legal.contains(m)).take(if light { 3 } else { usize::MAX }) {
         let Some(lm) = to_move(m) else { continue };
         illegal_n += 1;
         cand_move(ctx, &case, b, &snap, mp, &legal, lm, &Expect::Exact(None), "illegal");
@@ -204,7 +234,7 @@ pub fn check_pos(ctx: &mut Ctx, mp: &MPos, b: &Board) {
     let w = mp.white_to_move;
     let mut tries = 0;
     let mut found = 0;
-    while found < 8 && tries < 400 {
+    while found < (if light { 2 } else { 8 }) && tries < 400 {
         tries += 1;
         let k = *ctx.rng.pick(&MKind::ALL);
         let mn = if ctx.rng.chance(7, 8) { man(w, *ctx.rng.pick(b"PKNBRQ")) } else { man(!w, *ctx.rng.pick(b"PKNBRQ")) };
@@ -232,7 +262,7 @@ pub fn check_pos(ctx: &mut Ctx, mp: &MPos, b: &Board) {
     apply_all(ctx, &case, "Uci:0000", b, &snap, mp, &legal, &Expect::Exact(None), &|| make::Uci("0000"));
     apply_all(ctx, &case, "San:0000", b, &snap, mp, &legal, &Expect::Exact(None), &|| make::San("0000"));
     // UCI strings from the 20,480 space
-    for _ in 0..24 {
+    for _ in 0..(if light { 2 } else { 24 }) {
         let from = ctx.rng.below(64) as u8;
         let to = ctx.rng.below(64) as u8;
         let promo = if ctx.rng.chance(1, 4) { Some(*ctx.rng.pick(b"NBRQ")) } else { None };
@@ -259,7 +289,7 @@ pub fn check_pos(ctx: &mut Ctx, mp: &MPos, b: &Board) {
         texts.push(crate::gentext::mutate(&mut ctx.rng, &base, crate::gentext::SAN_ALPHABET));
         texts.push(crate::gentext::random_text(&mut ctx.rng, crate::gentext::SAN_ALPHABET, 6));
     }
-    for t in &texts {
+    for t in texts.iter().take(if light { 3 } else { usize::MAX }) {
         apply_all(ctx, &case, &format!("San:{}", crate::ctx::hex(t.as_bytes())), b, &snap, mp, &legal, &Expect::Sound, &|| make::San(t.clone()));
         apply_all(ctx, &case, &format!("Uci:{}", crate::ctx::hex(t.as_bytes())), b, &snap, mp, &legal, &Expect::Sound, &|| make::Uci(t.clone()));
     }
